@@ -62,6 +62,29 @@ def compare(mtext, rtext):
         res.append(d)
     return res
 
+def run_real_only(scns, workdir, env_extra, jobs=16):
+    """run the scenarios on the real code only (search mode); -> list of (scn, real_lines, endinfo)"""
+    os.makedirs(workdir, exist_ok=True)
+    nshard = max(1, min(jobs, len(scns)))
+    shards = [[] for _ in range(nshard)]
+    for i, s in enumerate(scns):
+        shards[i % nshard].append(s)
+    env = dict(os.environ); env.update(env_extra)
+    def one(i):
+        p = os.path.join(workdir, "rshard%d.txt" % i)
+        with open(p, "w") as f:
+            for s in shards[i]:
+                f.write(s.text())
+        r = subprocess.run([MQX, "run", p], capture_output=True, text=True, env=env)
+        return r.stdout
+    byname = {s.name: s for s in scns}
+    out = []
+    with cf.ThreadPoolExecutor(max_workers=nshard) as ex:
+        for txt in ex.map(one, range(nshard)):
+            for name, lines, endl in split_traces(txt):
+                out.append((byname.get(name), lines, end_fields(endl)))
+    return out
+
 def run_all(scns, workdir, brief=False, jobs=16):
     """scns: list of Scn. Returns list of result dicts (with the Scn attached)."""
     os.makedirs(workdir, exist_ok=True)
